@@ -32,6 +32,7 @@ import hashlib
 import json
 import math
 import os
+import re
 import resource
 import shutil
 import struct
@@ -46,7 +47,6 @@ from ..engine.loader import load_source
 
 import fpy2 as fp
 from fpy2.backend.cpp import CppCompiler, CppCompileError
-from fpy2.backend.cpp.types import CppList, CppScalar, CppTuple
 from fpy2.backend.cpp.unbox import UnboxMode
 from fpy2.interpret import get_default_interpreter
 from fpy2.number import Float
@@ -597,7 +597,8 @@ class Check(BaseCheck):
                         r.count('rejected_by_backend')
                         r.outcomes[f'reject:{res[1]}:unbox={opt[1]}'] += 1
                         if res[1].startswith('crash'):
-                            r.notes.append(f'backend raised {res[1]} (not CppCompileError) on {prog.shape}: {res[2][:120]}')
+                            r.notes.append(f'backend raised {res[1][6:]} instead of CppCompileError '
+                                           f'(family {prog.desc[0]}): {res[2][:90]}')
                     continue
                 key = (res[1], tuple(res[2]), res[3])
                 if key in by_text:
@@ -638,7 +639,6 @@ class Check(BaseCheck):
                     break
                 # find the blocks g++ refuses: by the line numbers of its errors, else each block alone
                 bad = []
-                import re
                 for m in re.finditer(r'unit\.cpp:(\d+):\d+: error: ([^\n]*)', err):
                     ln = int(m.group(1))
                     for lo, hi, bid in ranges:
@@ -651,8 +651,9 @@ class Check(BaseCheck):
                         f.write(render_unit([b], {vec_key(b.prog.args, b.vecs): b.vecs}))
                     rc1, err1 = run_gxx(one, '', syntax_only=True)
                     if rc1 != 0:
-                        bad.append(b)
-                        broken[b.bid] = err1[-1500:]
+                        bad.append(b.bid)
+                        m1 = re.search(r'error: ([^\n]*)', err1)
+                        broken[b.bid] = (m1.group(1) if m1 else 'error') + '\n' + err1[-1500:]
                 if not bad:
                     raise RuntimeError('g++ failed on the unit but on no single block:\n' + err[-2000:])
                 live = [b for b in live if b.bid not in broken]
@@ -667,7 +668,8 @@ class Check(BaseCheck):
                     p = subprocess.run([exe, str(first), str(skipvec)], capture_output=True, text=True, timeout=300)
                     rc, out, err = p.returncode, p.stdout, p.stderr
                 except subprocess.TimeoutExpired as e:
-                    rc, out, err = -999, (e.stdout or b'').decode() if isinstance(e.stdout, bytes) else (e.stdout or ''), 'timeout'
+                    so = e.stdout or ''
+                    rc, out, err = -999, so.decode(errors='replace') if isinstance(so, bytes) else so, 'timeout (300 s)'
                 last_start = None
                 for line in out.splitlines():
                     toks = line.split()
@@ -763,7 +765,7 @@ class Check(BaseCheck):
 
     def alt_expect(self, b: Block, k: int):
         """(ret, arg) of vector k under the IEEE-zero-sum interpreter, or None; classification only"""
-        if b.mod is None or 'N' not in b.prog.src:
+        if b.mod is None or not ('N:' in b.prog.src or b.prog.ctx.endswith('N')):
             return None
         if b.alt is None:
             b.alt = {}
@@ -815,10 +817,10 @@ class Check(BaseCheck):
 
 def _norm_err(text: str) -> str:
     """first g++ error line with identifiers that vary between runs removed"""
-    import re
     first = text.strip().split('\n')[0]
     first = re.sub(r'__[0-9a-f]{8}', '', first)
     first = re.sub(r'\bb\d+::', '', first)
+    first = re.sub(r'\b(float|double)\b', 'T', first)
     return first[:160]
 
 
